@@ -17,7 +17,7 @@ ASSUMPTIONS = ["scheme candidates whose first character is a digit, '+', '-' or 
 
 DELIMS = ":/?#@[]\\"
 TOKENS = [":", "/", "//", "?", "#", "@", "[", "]", "\\", "[::1]", "[a:b]@", "[v1.x]@", "[::1]@", "u[:]p@", "//[a:b]@h:80", "[v1.x]", "[1.2.3.4]", "[fe80::1%25eth0]", "http", "HTTP", "hTTps", "ws", "file", "mailto", "a", "b1", "1", "+", "-", ".",
-          "80", ":80", ":0", ":", " ", "\t", "\n", "\r", "\x00", "\x1f", "\x0b", "%41", "%2f", "\xe9", "x-y.z", "://", "h.example", "H.Example", "u:p@", "u@", ":p@", "@@", "::", "?#", "#?", "..", "."]
+          "80", ":80", ":0", ":", ":080", ":0080", ":00443", ":0443", ":021", ":000", "http://h:080", "https://u:p@[::1]:00443", " ", "\t", "\n", "\r", "\x00", "\x1f", "\x0b", "%41", "%2f", "\xe9", "x-y.z", "://", "h.example", "H.Example", "u:p@", "u@", ":p@", "@@", "::", "?#", "#?", "..", "."]
 
 
 def dense():
